@@ -88,6 +88,50 @@ def rule_parse_specials(col, facts):
     col.check("PAIR-special", "sign-after-match", ok, "parse_partial_special must negate exactly once, under `is_negative`", pp.loc())
 
 
+def _mentions(obj, l):
+    if isinstance(obj, list):
+        if len(obj) == 2 and obj[0] in ("cp", "mv") and isinstance(obj[1], list) and obj[1] and obj[1][0] == l:
+            return True
+        return any(_mentions(x, l) for x in obj)
+    if isinstance(obj, dict):
+        return any(_mentions(x, l) for x in obj.values())
+    return False
+
+
+def rule_sign_reaches_every_ok(col, facts):
+    """MPT-sign (parse): once the mantissa sign has been consumed, every `Ok(..)` the float entry points build
+    must depend on it - the block that builds it is dominated by a use of `is_negative` (the branch that
+    negates, or the call that is handed the flag).  An Ok exit that never looks at the flag returns +0.0 for
+    `-` (empty mantissa, digits not required) while `-.`, `-0`, `-e5` give -0.0."""
+    R = "MPT-sign"
+    n = 0
+    for name in ("parse_complete", "fast_path_complete", "parse_partial", "fast_path_partial"):
+        f = facts.fn(PF + "parse::" + name)
+        neg = [l for l, nm in f.names.items() if nm == "is_negative"]
+        col.check(R, "%s:is_negative" % name, len(neg) == 1, "no unique `is_negative` local", f.loc())
+        if len(neg) != 1:
+            continue
+        neg = neg[0]
+        users = set()
+        for i, b in enumerate(f.blocks):
+            if not f.live(i):
+                continue
+            if any(st[0] == "=" and _mentions(st[2], neg) for st in b["s"]) or _mentions(b["t"].get("a"), neg) or _mentions(b["t"].get("d"), neg):
+                users.add(i)
+        k = 0
+        for i, b in enumerate(f.blocks):
+            if not f.live(i):
+                continue
+            for st in b["s"]:
+                if st[0] == "=" and st[1] == [0, []] and st[2][0] == "agg" and st[2][1][0] == "adt" and st[2][1][1] == "core::result::Result" and st[2][1][3] == "Ok":
+                    k += 1
+                    n += 1
+                    ok = any(f.dominates(u, i) for u in users)
+                    col.check(R, "%s:Ok#%d" % (name, k), ok,
+                              "an Ok value is built after the sign was parsed on a path that never uses `is_negative`: the sign of the result (zero for an empty mantissa) is lost", f.loc(st[3]))
+    col.floor(R, "Ok exits of the float entry points", n, 8)
+
+
 def rule_write_specials(col, facts):
     R = "MPT-sign"
     wf = facts.fn(WF + "write::WriteFloat::write_float")
@@ -215,6 +259,7 @@ def run(col, configs, tier):
         col.set_config(name)
         guarded(col, rule_parse_specials, facts)
         guarded(col, rule_write_specials, facts)
+        guarded(col, rule_sign_reaches_every_ok, facts)
         guarded(col, rule_special_classification, facts)
         from rules import extra as X2
         guarded(col, X2.rule_overflow_check_unconditional, facts)
